@@ -78,6 +78,11 @@ func (propC10) Gen(r *Rng, run uint64, tier string) *Plan {
 		// differ only in labels whose names and values are prefixes of one another.
 		spec.Msg = "kv"
 		pipe = []string{" | logfmt | drop msg", " | logfmt | drop msg", " | logfmt"}[r.Intn(3)]
+		if r.Bool(0.35) {
+			// the same rendered value spelled with different JSON types
+			spec.Msg = "jsonmix"
+			pipe = []string{" | json | drop msg", " | json"}[r.Intn(2)]
+		}
 	}
 	p.World = GenWorld(r.Sub("world"), spec)
 	sel, _ := genSelection(r.Sub("sel"), &p.World)
@@ -96,8 +101,12 @@ func (propC10) Gen(r *Rng, run uint64, tier string) *Plan {
 		}
 		qs.Without = r.Bool(0.4)
 		seen := map[string]bool{}
+		vocab := c10GroupVocab
+		if spec.Msg == "jsonmix" {
+			vocab = append(append([]string(nil), vocab...), "s", "s", "s", "t")
+		}
 		for k := 1 + r.Intn(3); k > 0; k-- {
-			l := Pick(r, c10GroupVocab)
+			l := Pick(r, vocab)
 			if !seen[l] && !(qs.Kind == "unwrap" && l == "weight") {
 				seen[l] = true
 				qs.Labels = append(qs.Labels, l)
